@@ -585,6 +585,8 @@ class Runner:
             if sym[0] == 'outside':
                 sym = ['outside-destdir']
             key = 'C11:%s:%s' % (self.w.proj.key_class, ':'.join(sym))
+            if self.w.proj.key_whole:
+                key = 'C11:%s' % self.w.proj.key_class
         self.res['viol'].append((key, text, rep))
 
     # -- aborted installs --------------------------------------------------------------------------------------
